@@ -41,7 +41,7 @@ CLAIMED = {
              "the application tick does exactly this to every queue; and over ALL thread schedules (any length) of one arrival / POWEROFF / POWERON racing one tick at the granularity of lock sections and single "
              "reads/writes of running / fh: conservation, on-time (modular frame comparison across the hyperframe wrap), no crash on any schedule. Sessions on the real Application (with child transceivers and power commands through the parent) "
              "vs the model - every session tick goes through the real CLCKGen.send_clck_ind(), consecutive frames use the generator's own increment (also across 2715647 -> 0); schedules driven on two real threads over real FakeTRX "
-             "objects (thorough: every distinct interleaving over the first 14 scheduling decisions, each once) vs the extracted race model.",
+             "objects (thorough: every distinct interleaving over the first 14 scheduling decisions, each once) vs the extracted race model; the shared clock generator must run exactly while a clock-owning transceiver is powered on (judged from the command history).",
         note="partial: atomicity granularity (lock sections; one attribute access under the GIL) is assumed, preemption inside a bytecode or inside socket.sendto is not modelled. Two defects found by this check were repaired in /repo "
              "(ab4b39d: double read of self.fh racing POWEROFF; 8ee3c86: numeric frame comparison across the hyperframe wrap).",
         technique="Coq proof (history invariants; one-step invariants over arbitrary schedules) + extracted models vs real objects (sessions; controlled schedules on real threads)", ref="7-C03"),
@@ -51,7 +51,7 @@ CLAIMED = {
              "SETTA, FAKE_*, unknown verbs -> 0 without effect) for decimal arguments; a refused command (negative status, any verb) changes nothing at all; no command crashes or leaves the reachable region; trxcon side (model of trx_if.c): every reply to a command trxcon emits is "
              "matched and decided by its status, trxcon's longest command (SETFH) fits the toolkit's receive size, and the SETFH command carries exactly the hopping list it was given (HSN, MAIO, 'rx tx' of every channel in order) or nothing "
              "is queued (a channel without frequency; more than 999 characters: 63 DCS channels). 15 theorems. Sessions vs model + independent reference table + end to end through the real trx_if.c + SETFH composer against a specification oracle "
-             "(sizes around the room limit in every band).",
+             "(sizes around the room limit in every band); raw datagrams include the degenerate 'CMD', 'CMD ' and non-CMD prefixes.",
         note="well-formed = ASCII decimal arguments (py_int models int() on ASCII tokens; other tokens: C14); control receive size probed through a fake socket; TRXC_BUF_SIZE as compiled; "
              "time.sleep of FAKE_TRXC_DELAY virtualised with the real call's domain (negative: ValueError, beyond 2^63-1 ns: OverflowError). Fixed in /repo: 526bb7b, 35bc7c1, 03c0ece.",
         technique="Coq proof (case analysis per verb, invariants) + Gen (probed sizes, compiled constants) + extracted-model correspondence + real trx_if.c harness", ref="7-C05"),
@@ -62,7 +62,7 @@ CLAIMED = {
              "independent reference of the routing rule from the implementation's own state.",
         note="partial: sockets/select loop/clock thread replaced by in-memory sockets and explicit ticks; delivery = written to the socket; option equality keeps the untuned None == None match "
              "of children powered on by their parent visible (not claimed as a defect). Oracle: radio configuration, wiring (who manages whom, from the --trx definitions), mute / drop / version all derived from the command "
-             "history; fan-out sessions; implementation-level scenario 'SETFH handled between the ticks of two transceivers of one frame' (old sequence for the sender ticked before, new one for the sender ticked after).",
+             "history; fan-out sessions; implementation-level scenario 'SETFH handled between the ticks of two transceivers of one frame' (old sequence for the sender ticked before, new one for the sender ticked after); a burst arriving on the socket thread while the clock thread ticks (two real threads, random schedules) is never lost.",
         technique="Coq proof (induction over the transceiver list, invariants) + Gen + extracted session-model correspondence on the real Application + history-derived routing oracle", ref="7-C02"),
     "C10": dict(
         text="Theorems: the message handed to send_msg for a burst that is neither muted nor dropped has the sender's FN/TN, the recipient's version, bits mapped 0 -> +127 / non-zero -> -127, "
@@ -110,7 +110,7 @@ CLAIMED = {
     "C01": dict(
         text="Theorems for all messages: gen_msg/parse_msg round trip for TxMsg (exact) and RxMsg (every field the version carries; v0/v1, all six modulations x TSC sets x TSC, NOPE, "
              "both burst lengths, soft bits in [-127,127]), legacy padding irrelevant, every in-range message encodable; modulation table, ranges and the four 256-entry translate tables "
-             "regenerated by reflection and swept exhaustively; extracted model compared with the real classes on generated + mutated datagrams.",
+             "regenerated by reflection and swept exhaustively; extracted model compared with the real classes on generated + mutated datagrams; long-lived objects and ONE shared receive buffer reused for every datagram (a parsed message owns its data).",
         note="parse_msg is modelled with checked indexing (Crash constructor) and ValueError (VErr); CPython semantics of struct/bytes.translate/slicing are trusted as modelled.",
         technique="Coq proof (lia, finite sweeps lifted, list induction) + Gen by reflection + extracted-model correspondence", ref="7-C01"),
     "C06": dict(
